@@ -5,6 +5,7 @@ import flowpaths.utils as utils
 import flowpaths.nodeexpandeddigraph as nedg
 import copy
 import math
+import numbers
 
 
 class kLeastAbsErrors(pathmodel.AbstractPathModelDAG):
@@ -202,7 +203,7 @@ class kLeastAbsErrors(pathmodel.AbstractPathModelDAG):
         self.k = k
         self.original_k = k
         # k is replaced by the size of the weight superset below: it is checked here, as the caller gave it
-        if self.k is not None and (not isinstance(self.k, int) or self.k <= 0):
+        if self.k is not None and (not isinstance(self.k, numbers.Integral) or self.k <= 0):
             utils.logger.error(f"{__name__}: k must be a positive integer, not {self.k}")
             raise ValueError(f"k must be a positive integer, not {self.k}")
         self.solution_weights_superset = solution_weights_superset
